@@ -1,5 +1,5 @@
 """Per-property checks. Each function returns the process exit status (0 / 1) or raises
-Drift / ToolError (exit 2)."""
+Drift / ToolError (exit 2) or ConformanceDrift (reported, exit 0)."""
 import os, sys, json, hashlib, glob, time, re, subprocess
 import cb
 from cb import ToolError, Report, log
@@ -8,7 +8,14 @@ REGISTRY = {}
 
 
 class Drift(Exception):
-    pass
+    """The model cannot be instantiated for this code (extraction outside the specification's family, hook mirror
+    changed, refinement lost): the check cannot decide - exit 2."""
+
+
+class ConformanceDrift(Drift):
+    """A lock-step replay or a validated trace diverged from the specification although every observational predicate
+    of the checked property held on every real execution (the replay continues in free mode, the random schedules are
+    all run). Reported (`SPEC-DRIFT` line, evidence note), not a verdict: exit 0."""
 
 
 def register(pid):
